@@ -14,12 +14,12 @@ def run(tier, rep):
         + sample(families.gen_flat, rng, 3 * n) + sample(families.gen_cascade, rng, n) \
         + sample(families.renamed(families.gen_shape), rng, n) + sample(families.renamed(families.gen_occ), rng, n // 2) + sample(families.renamed(families.gen_flat, "K", "I"), rng, n // 2) + sample(families.gen_affine_plain, rng, n // 2)
     # set-iteration order decides which partitioning of a tensor is applied first: the deterministic partitioning cores are compiled in
-    # fresh interpreters under several string-hash seeds and injected flow-graph orders; every distinct text is one more program
+    # fresh interpreters under several string-hash seeds; every distinct text is one more program
     from checks import C08
     from common import workdir
     core = families.double_flat_core() + families.flat_split_core()[::2] + families.occ_flat_core()[::3]
     with workdir("C07v") as wd:
-        res = C08.compile_variants(core, wd, 6 if q else 24, 2 if q else 8)
+        res = C08.compile_variants(core, wd, 8 if q else 32, 0)          # real string-hash seeds only: C07 does not quantify over schedules (DESIGN 12.1)
     texts = {}
     for k, tag, rc, out, err in res:
         if rc == 0:
